@@ -86,6 +86,7 @@ try:
             channel,
             force_as,
             seed,
+            utt2idx=None,
         ):
             super(_FeatureProcessorDataset, self).__init__()
             self.utt_path = tuple(utt2path.items())
@@ -95,14 +96,18 @@ try:
             self.channel = channel
             self.force_as = force_as
             self.seed = seed
+            # position of each utterance in the full map, so that its seed does not
+            # depend on which other utterances were already in the manifest
+            self.utt2idx = utt2idx
 
         def __len__(self):
             return len(self.utt_path)
 
         @torch.no_grad()
         def __getitem__(self, idx):
-            torch.manual_seed(self.seed + idx)
             utt_id, path = self.utt_path[idx]
+            seed_idx = idx if self.utt2idx is None else self.utt2idx[utt_id]
+            torch.manual_seed(self.seed + seed_idx)
             try:
                 signal = read_signal(
                     path, dtype=np.float64, force_as=self.force_as, key=utt_id
@@ -541,6 +546,7 @@ def signals_to_torch_feat_dir(args=None):
             )
             return 1
         utt2path[utt_id] = " ".join(ls[1:])
+    utt2idx = dict((utt_id, idx) for (idx, utt_id) in enumerate(utt2path))
     if options.manifest is not None:
         options.manifest.seek(0)
         for line in options.manifest:
@@ -594,6 +600,7 @@ def signals_to_torch_feat_dir(args=None):
         options.channel,
         options.force_as,
         seed,
+        utt2idx,
     )
     loader = torch.utils.data.DataLoader(dataset, num_workers=options.num_workers)
     if not os.path.isdir(options.dir):
